@@ -24,8 +24,8 @@ EXPLANATION = (
     "Tajima's D constants and Weir-Cockerham Fst (the code's a, d are compared, for r = 2 and 3 populations of unequal "
     "size, with the published equations 2-4 after solving b = 0 for the heterozygosity); S() restores the mask."
     " (6) both data-dict parsers by role flow: the columns of the split line and the genotype counts that reach each position of what is stored under 'segregating', 'calls' and 'outgroup_allele'; the VCF line filters as skip predicates evaluated over allele / FILTER worlds before anything of the line is stored; the stored outgroup allele is assigned on every path of its own iteration; the list zipped with the sample columns has one entry per header sample column."
-    " (7) R-DOM chunker: fragment_data_dict is executed by the checker's own interpreter (sa.miniexec over the syntax tree; dadi is not imported) on a finite domain of 71 data dictionaries (chromosome names with _ and ., positions on both sides of every chunk boundary for chunk sizes 1/3/10, sites with and without additional info, several insertion orders); the result must be a partition of the keys with unchanged records into pairwise disjoint per-chromosome position intervals shorter than chunk_size; where the statement templates do not recognise the code the executed domain decides (bounded argument).")
-TECHNIQUE = "finite-domain abstract execution of the polarisation loop and of the chunker (checker-owned interpreter over the AST) + role flow through the parsers + skip predicates over finite worlds + argument/slot correspondence + exact rational algebra (vector-valued for Fst) + loop-shape rules"
+    " (7) R-CMP: the (position, info) tuples of fragment_data_dict are sorted with a comparison defined for every pair - no default tuple ordering over a component that is None on one path and a str on another; a sort key orders by position first. A bounded interpretation of the chunker on 71 small dictionaries is recorded as a cross-check only (it runs the function, so it never decides).")
+TECHNIQUE = "finite-domain abstract execution of the polarisation loop + comparability typing of sorted tuples + role flow through the parsers + skip predicates over finite worlds + argument/slot correspondence + exact rational algebra (vector-valued for Fst) + loop-shape rules"
 DECLINED = ["VCF tokenisation details (genotype separators, ploidy, FORMAT fields)", "equality of a spectrum with an independent count of a genotype matrix (numerical)",
             "distributional properties of bootstraps / subsamples"]
 
@@ -590,53 +590,97 @@ def fragment_domain_verdict(prog):
     return (True, 'partition into per-chromosome position intervals shorter than chunk_size on %d worlds' % len(worlds), len(worlds))
 
 
-class _Deferred:
-    """collects the template obligations of fragment_data_dict so that the ones whose code shape is not recognised can be decided
-    by the finite-domain execution instead"""
-
-    def __init__(self, rep):
-        self.rep, self.items = rep, []
-
-    def ob(self, *a, **kw):
-        self.items.append((a, kw))
-        return a[2]
-
-    def flush(self, verdict):
-        from sa.report import UNREC_RX
-        for a, kw in self.items:
-            a = list(a)
-            detail = a[3] if len(a) > 3 else kw.get('detail', '')
-            if not a[2] and verdict is not None and UNREC_RX.search(detail or ''):
-                # shape not recognised (or different from the reference shape): the executed domain decides
-                a[2] = verdict[0]
-                new = 'code shape differs from the reference template; decided by finite-domain execution: ' + verdict[1]
-                if len(a) > 3:
-                    a[3] = new
-                else:
-                    kw['detail'] = new
-            self.rep.ob(*a, **kw)
+def check_sort_comparability(rep, prog):
+    """R-CMP (static): the sites of one chromosome are sorted before they are cut into chunks.  Default tuple ordering compares the
+    second component whenever the first ties, and that component is None on one path and a str on another (a site without / with
+    additional info): `sorted` without a key raises TypeError for a site present in both forms.  Rule: either the sorted tuples have
+    no component that is None on one path and not None on another, or the sort has a key whose first component is the position and
+    which never exposes the None/str component bare."""
+    m = prog.mod(MISC)
+    fn = prog.func(MISC, 'fragment_data_dict')
+    # tuple appended per key, and the kinds of value each of its Name components is assigned
+    kinds = {}
+    for n in own_nodes(fn):
+        if isinstance(n, ast.Assign):
+            tg, v = n.targets[0], n.value
+            pairs = list(zip(tg.elts, v.elts)) if isinstance(tg, ast.Tuple) and isinstance(v, ast.Tuple) and len(tg.elts) == len(v.elts) else [(tg, v)]
+            if isinstance(tg, ast.Tuple) and not isinstance(v, ast.Tuple):
+                pairs = [(e, None) for e in tg.elts]          # unpacked from a call (str.split ...): not None
+            for t_, val in pairs:
+                if isinstance(t_, ast.Name):
+                    kinds.setdefault(t_.id, set()).add('none' if isinstance(val, ast.Constant) and val.value is None else 'value')
+    apps = [c for c in own_nodes(fn) if isinstance(c, ast.Call) and isinstance(c.func, ast.Attribute) and c.func.attr == 'append' and c.args and isinstance(c.args[0], ast.Tuple)
+            and isinstance(c.func.value, ast.Subscript)]
+    hetero = set()
+    width = None
+    for c in apps[:1]:
+        width = len(c.args[0].elts)
+        for k, e in enumerate(c.args[0].elts):
+            if isinstance(e, ast.Name) and kinds.get(e.id, set()) >= {'none', 'value'}:
+                hetero.add(k)
+    sorts = [c for c in own_nodes(fn) if isinstance(c, ast.Call) and ((isinstance(c.func, ast.Name) and c.func.id == 'sorted') or (isinstance(c.func, ast.Attribute) and c.func.attr == 'sort'))]
+    what = 'the sites of a chromosome are ordered by position with a comparison that is defined for every pair (additional info is None or a str)'
+    if width is None or len(sorts) != 1:
+        rep.ob('R-CMP', 'fragment_data_dict site order', False, 'the per-chromosome list of (position, info) tuples or its single sort was not found', m.rel, fn.lineno, what=what)
+        return
+    c = sorts[0]
+    key = next((k.value for k in c.keywords if k.arg == 'key'), None)
+    if any(k.arg not in ('key',) for k in c.keywords):
+        rep.ob('R-CMP', 'fragment_data_dict site order', False, 'sort `%s` not recognised' % ast.unparse(c)[:80], m.rel, c.lineno, what=what)
+        return
+    if key is None:
+        ok = not hetero
+        det = 'default tuple order; no component is None on one path and a value on another' if ok else \
+            'default tuple order compares component %s, which is None for sites without additional info and a str for sites with it: a site present in both forms raises TypeError' % sorted(hetero)
+        rep.ob('R-CMP', 'fragment_data_dict site order', ok, det, m.rel, c.lineno, what=what)
+        return
+    if not (isinstance(key, ast.Lambda) and len(key.args.args) == 1):
+        rep.ob('R-CMP', 'fragment_data_dict site order', False, 'sort key `%s` not recognised' % ast.unparse(key)[:80], m.rel, c.lineno, what=what)
+        return
+    a = key.args.args[0].arg
+    comps = key.body.elts if isinstance(key.body, ast.Tuple) else [key.body]
+    texts = [ast.unparse(x) for x in comps]
+    first_ok = texts[0] == '%s[0]' % a
+    bare = [t for t in texts[1:] if re.fullmatch(r'%s\[(\d+)\]' % a, t) and int(re.fullmatch(r'%s\[(\d+)\]' % a, t).group(1)) in hetero]
+    safe_forms = lambda t: any(re.fullmatch(rx % {'a': a}, t) for rx in (
+        r'%(a)s\[\d+\]', r'%(a)s\[\d+\] is not None', r'%(a)s\[\d+\] is None', r"%(a)s\[\d+\] or ''", r'str\(%(a)s\[\d+\]\)',
+        r"'' if %(a)s\[\d+\] is None else %(a)s\[\d+\]", r"%(a)s\[\d+\] if %(a)s\[\d+\] is not None else ''", r"%(a)s\[\d+\] if %(a)s\[\d+\] else ''"))
+    if not all(safe_forms(t) for t in texts):
+        rep.ob('R-CMP', 'fragment_data_dict site order', False, 'sort key `%s` not recognised' % ast.unparse(key)[:100], m.rel, c.lineno, what=what)
+        return
+    ok = first_ok and not bare
+    det = 'key %s: position first, the None/str component only through is-None tests or with a str default' % ast.unparse(key.body)
+    if not first_ok:
+        det = 'key %s does not order by position first: sites are visited out of position order, so chunks interleave and span more than chunk_size' % ast.unparse(key.body)
+    elif bare:
+        det = 'key %s still compares %s, which is None or a str' % (ast.unparse(key.body), bare[0])
+    rep.ob('R-CMP', 'fragment_data_dict site order', ok, det, m.rel, c.lineno, what=what)
 
 
 def check_fragment(rep, prog):
-    verdict = fragment_domain_verdict(prog)
-    real_rep, rep = rep, _Deferred(rep)
+    _check_fragment_templates(rep, prog)
+    check_sort_comparability(rep, prog)
+    # bounded interpretation of the chunker on a finite domain of dictionaries: this RUNS the function (in the checker's interpreter), so
+    # it is not a static decision and never changes the verdict; it is recorded as a cross-check of the static rules above
+    verdict = None
     try:
-        _check_fragment_templates(rep, prog)
-    finally:
-        rep.flush(verdict)
-    rep = real_rep
-    m = prog.mod(MISC)
-    fn = prog.func(MISC, 'fragment_data_dict')
-    if verdict is not None:
-        rep.ob('R-DOM', 'fragment_data_dict partition', verdict[0], verdict[1], m.rel, fn.lineno,
-               what='on the finite key domain (chromosome names with _ and ., positions around every chunk boundary, optional info) the chunks partition the SNPs into per-chromosome intervals shorter than chunk_size, records unchanged')
+        verdict = fragment_domain_verdict(prog)
+    except Exception:
+        verdict = None
+    static_ok = not any((not o.ok) and 'fragment_data_dict' in o.construct for o in rep.obls)
+    rep.extra['fragment_bounded_interpretation_crosscheck'] = {
+        'status': 'not executable' if verdict is None else ('agrees' if verdict[0] == static_ok else 'disagrees'),
+        'detail': None if verdict is None else verdict[1], 'worlds': None if verdict is None else verdict[2], 'decides': False}
+    if verdict is not None and verdict[0] != static_ok:
+        print('CROSS-CHECK (informational, not a static decision) fragment_data_dict: static rules say %s, bounded interpretation says: %s'
+              % ('held' if static_ok else 'violated', verdict[1]))
     check_bootstraps(rep, prog)
 
 
 def _check_fragment_templates(rep, prog):
     m = prog.mod(MISC)
     fn = prog.func(MISC, 'fragment_data_dict')
-    rep.rep.saw_function(m.rel + ':fragment_data_dict')
+    rep.saw_function(m.rel + ':fragment_data_dict')
     t = ast.unparse(fn)
     # parser
     okp = has(t, "chrname, position = ('_'.join(k.split('_')[:-1]), k.split('_')[-1])") and has(t, "position, add_info = position.split('.', 1)") and \
@@ -683,7 +727,7 @@ def _check_fragment_templates(rep, prog):
     outer = [n for n in own_nodes(fn) if isinstance(n, ast.For) and ast.unparse(n.iter) == 'ndd.keys()']
     def _head(s_):
         # the sort may carry a key (None and str do not compare); whether the order it gives is the position order is decided by
-        # the finite-domain execution (chunks that interleave or span more than chunk_size are reported there)
+        # check_sort_comparability (R-CMP)
         if isinstance(s_, ast.Assign) and isinstance(s_.value, ast.Call) and ast.unparse(s_.value.func) == 'sorted' and len(s_.value.args) == 1 and \
                 [k_.arg for k_ in s_.value.keywords] in ([], ['key']):
             return '%s = sorted(%s)' % (ast.unparse(s_.targets[0]), ast.unparse(s_.value.args[0]))
